@@ -473,6 +473,128 @@ def a2b_base64_strict(ctx, items):
     return SBytes([z3.Extract(tot - 1 - 8 * j, tot - 8 - 8 * j, bits) for j in range(tot // 8)])
 
 
+def a2b_base64_lenient(ctx, items):
+    """binascii.a2b_base64(strict_mode=False) of CPython 3.12: characters outside the alphabet are skipped, a complete pad
+    sequence ends the data, leftover sextets are an error."""
+    vals = []
+    quad_pos = 0
+    pads = 0
+    for c in items:
+        if ctx.branch(char_is(c, 61)):
+            if quad_pos >= 2:
+                pads += 1
+                if quad_pos + pads >= 4:
+                    quad_pos = 0
+                    break
+            continue
+        if not ctx.branch(in_set(c, STD)):
+            continue
+        pads = 0
+        pv = prov(c)
+        vals.append(pv[0] if pv is not None and pv[1] == STD else b64_value(c, STD))
+        quad_pos = (quad_pos + 1) & 3
+    if quad_pos != 0:
+        if quad_pos == 1:
+            raise Raised(binascii.Error("Invalid base64-encoded string: number of data characters (%d) cannot be 1 more than a multiple of 4" % len(vals)))
+        raise Raised(binascii.Error("Incorrect padding"))
+    if not vals:
+        return SBytes([])
+    bits = z3.Concat(*vals) if len(vals) > 1 else vals[0]
+    tot = 6 * len(vals)
+    return SBytes([z3.Extract(tot - 1 - 8 * j, tot - 8 - 8 * j, bits) for j in range(tot // 8)])
+
+
+def _translate_url(items):
+    new = []
+    for c in items:
+        pv = prov(c)
+        if pv is not None and pv[1] == URL:
+            new.append(lut(pv[0], STD, 6))
+        else:
+            new.append(z3.If(c == ord("-"), z3.BitVecVal(ord("+"), 8), z3.If(c == ord("_"), z3.BitVecVal(ord("/"), 8), c)))
+    return new
+
+
+def m_urlsafe_b64decode(it, args, kw):
+    """base64.urlsafe_b64decode(s) = b64decode(s.translate(-_ -> +/)) with validate=False"""
+    s = conc_seq(args[0])
+    return a2b_base64_lenient(it.ctx, _translate_url(s.items))
+
+
+def m_b64decode_any(it, args, kw):
+    validate = args[2] if len(args) > 2 else kw.get("validate", False)
+    if validate is True:
+        return m_b64decode(it, args, kw)
+    s = conc_seq(args[0])
+    altchars = args[1] if len(args) > 1 else kw.get("altchars")
+    items = s.items
+    if altchars is not None:
+        if is_sym(altchars) or bytes(altchars) != b"-_":
+            raise Unsupported("altchars")
+        items = _translate_url(items)
+    return a2b_base64_lenient(it.ctx, items)
+
+
+class SPattern:
+    """re patterns of the form  ^? [class](*|+) ($|\\Z)?  on symbolic bytes / str (enough for alphabet checks)"""
+    def __init__(self, pat):
+        import re
+        try:
+            import re._parser as sre_parse
+        except ImportError:  # pragma: no cover
+            import sre_parse
+        self.pat = pat
+        p = list(sre_parse.parse(pat.pattern, pat.flags))
+        self.anchored_start = bool(p) and str(p[0][0]) == "AT" and str(p[0][1]) in ("AT_BEGINNING", "AT_BEGINNING_STRING")
+        if self.anchored_start:
+            p = p[1:]
+        self.end = None
+        if p and str(p[-1][0]) == "AT" and str(p[-1][1]) in ("AT_END", "AT_END_STRING"):
+            self.end = str(p[-1][1])
+            p = p[:-1]
+        if len(p) != 1 or str(p[0][0]) not in ("MAX_REPEAT", "MIN_REPEAT"):
+            raise Unsupported("regex %r" % pat.pattern)
+        lo, hi, body = p[0][1]
+        body = list(body)
+        if len(body) != 1 or str(body[0][0]) != "IN":
+            raise Unsupported("regex %r" % pat.pattern)
+        self.lo, self.hi = lo, hi
+        chars = set()
+        for op, av in body[0][1]:
+            if str(op) == "LITERAL":
+                chars.add(av)
+            elif str(op) == "RANGE":
+                chars.update(range(av[0], av[1] + 1))
+            else:
+                raise Unsupported("regex class %r" % (op,))
+        self.chars = sorted(c for c in chars if c < 256)
+
+    def cond(self, s, full):
+        s = conc_seq(s)
+        n = len(s)
+        inn = [in_set(c, self.chars) for c in s.items]
+
+        def allin(k):
+            return z3.And(*inn[:k]) if k else z3.BoolVal(True)
+        alts = []
+        if self.end is None and not full:
+            # match(): a prefix of at least `lo` class characters suffices
+            return allin(self.lo) if n >= self.lo else z3.BoolVal(False)
+        if n >= self.lo:
+            alts.append(allin(n))
+        if self.end == "AT_END" and not full and n >= 1 and n - 1 >= self.lo:
+            alts.append(z3.And(allin(n - 1), s.items[-1] == 10))          # '$' also matches before a trailing newline
+        return z3.Or(*alts) if alts else z3.BoolVal(False)
+
+
+def m_pattern_match(it, args, kw):
+    return SPattern(args[0]).cond(args[1], False)
+
+
+def m_pattern_fullmatch(it, args, kw):
+    return SPattern(args[0]).cond(args[1], True)
+
+
 def hex_digit(nib):
     return lut(nib, HEX, 4)
 
@@ -648,8 +770,12 @@ def m_compare_digest(it, args, kw):
 
 
 import hmac as _hmac
+import re as _re
 MODELS = {
-    base64.b64decode: m_b64decode,
+    base64.b64decode: m_b64decode_any,
+    base64.urlsafe_b64decode: m_urlsafe_b64decode,
+    _re.Pattern.match: m_pattern_match,
+    _re.Pattern.fullmatch: m_pattern_fullmatch,
     base64.urlsafe_b64encode: m_urlsafe_b64encode,
     base64.b64encode: m_b64encode,
     binascii.a2b_hex: m_a2b_hex,
@@ -725,6 +851,10 @@ class Interp:
             if is_sym(args):
                 args = ["<symbolic>"]
             return f(*args, **kw)
+        if isinstance(f, types.BuiltinMethodType) and isinstance(getattr(f, "__self__", None), _re.Pattern) and (is_sym(args) or is_sym(kw)):
+            m = self.models.get(getattr(_re.Pattern, f.__name__, None))
+            if m is not None:
+                return m(self, [f.__self__] + args, kw)
         if isinstance(f, types.BuiltinMethodType) and isinstance(getattr(f, "__self__", None), (str, bytes)) \
                 and (is_sym(args) or is_sym(kw)):
             return SymMethod(conc_seq(f.__self__), f.__name__)(self, args, kw)
@@ -823,6 +953,20 @@ class SymMethod:
         while items and it.ctx.branch(in_set(items[-1], cs)):  # in_set is syntactic for table look-ups
             items.pop()
         return SBytes(items, o.is_str)
+
+    def m_lstrip(self, it, chars=None):
+        o = self.obj
+        if chars is None or is_sym(chars):
+            raise Unsupported("lstrip()")
+        cs = list(chars.encode("latin1") if isinstance(chars, str) else chars)
+        items = list(o.items)
+        while items and it.ctx.branch(in_set(items[0], cs)):
+            items.pop(0)
+        return SBytes(items, o.is_str)
+
+    def m_strip(self, it, chars=None):
+        left = self.m_lstrip(it, chars)
+        return SymMethod(left, "rstrip").m_rstrip(it, chars)
 
     def m_startswith(self, it, prefix):
         o = self.obj
